@@ -8,7 +8,7 @@ from ..common import Report, Unsupported, Violation, pmap, seed, short, tier
 from ..graphs import CURATED, GSpec, family, xy_queries
 from ..sem import exact
 from ..sem.denote import Denoter, free_names
-from ..sem.harness import envs_for, grid_params, hashseed, params_from_json, params_to_json
+from ..sem.harness import envs_for, grid_params, hashseed, normalise_rows, params_from_json, params_to_json
 from ..sem.l2 import TARGET, SymL2
 from ..sem.rat import Decider
 
@@ -89,24 +89,25 @@ def check_case(g: GSpec, X, Y, est, model: SymL2, den: Denoter, env_mode: str, t
             out["unknown_envs"].append(env)
         if verdict == "sat":
             params = model.model_to_params(m)
-            rep = replay_values(g, X, Y, est, env, params)
+            cards = (dict(model.card), model.lat_card)
+            rep = replay_values(g, X, Y, est, env, params, *cards)
             if rep is None:  # algebraic model did not survive rounding: look on the rational grid
                 for shift in range(12):
-                    params = grid_params(model.params, shift)
-                    rep = replay_values(g, X, Y, est, env, params)
+                    params = normalise_rows(grid_params(model.params, shift), None)
+                    rep = replay_values(g, X, Y, est, env, params, *cards)
                     if rep is not None:
                         break
             if rep is None:
                 out["violation"] = {"kind": "noreplay", "env": env}
             else:
-                out["violation"] = {"kind": "wrong", "env": env, "params": params_to_json(params), "est": rep[0], "truth": rep[1]}
+                out["violation"] = {"kind": "wrong", "env": env, "params": params_to_json(params), "est": rep[0], "truth": rep[1], "card": cards[0], "lat_card": cards[1]}
             return out
     return out
 
 
-def replay_values(g, X, Y, est, env, params):
+def replay_values(g, X, Y, est, env, params, card=None, lat_card=2):
     """Exact evaluation; returns (est, truth) strings if they differ, else None."""
-    w = exact.ExactL2(g, params)
+    w = exact.ExactL2(g, params, card=card, lat_card=lat_card)
     try:
         a = exact.evaluate(est, w, env)
     except exact.Undefined as e:
@@ -118,15 +119,16 @@ def replay_values(g, X, Y, est, env, params):
 
 
 def work(job):
-    g, env_mode, timeout_ms, queries = job
+    g, env_mode, timeout_ms, queries = job[:4]
+    card, lat_card = job[4] if len(job) > 4 else (None, 2)
     fired = trace_lines()
-    model = SymL2(g)
+    model = SymL2(g, card=card, lat_card=lat_card)
     den = Denoter(model, vocab=obs_vocab(g.nodes))
     res = []
     for X, Y in (queries if queries is not None else xy_queries(g.nodes)):
         X, Y = sorted(X), sorted(Y)
         del fired[:]
-        rec = {"g": g.to_json(), "X": X, "Y": Y}
+        rec = {"g": g.to_json(), "X": X, "Y": Y, "ternary": card is not None}
         try:
             est = run_id(g, X, Y)
         except Exception as e:  # noqa: BLE001 — totality is C02's business; counted here
@@ -161,6 +163,25 @@ def deep5_jobs(env_mode, timeout_ms):
     return [(g, env_mode, timeout_ms, qs) for g, qs in by_g.items()]
 
 
+def ternary_jobs(t: str):
+    """The same inputs over models with three-valued variables (observed and latent): the estimand is an expression in
+    the distribution only, so its correctness must not depend on the domain sizes."""
+    jobs = []
+    for g in family(3):
+        jobs.append((g, "all", TIMEOUT_MS[t], None, ({n: 3 for n in g.nodes}, 3)))
+    for name, g in CURATED.items():
+        if len(g.nodes) <= 4:
+            jobs.append((g, "diag", 5000, None, ({n: 3 for n in g.nodes}, 2)))
+    if t == "thorough":
+        k = 0
+        for i, g in enumerate(family(4, labellings=("fwd",), n_min=4)):
+            if i % 4 == seed() % 4:
+                # mixed domain sizes: node j has 2 + (j + k) % 2 values; latents stay binary
+                k += 1
+                jobs.append((g, "diag", 5000, None, ({n: 2 + (j + k) % 2 for j, n in enumerate(g.nodes)}, 2)))
+    return jobs
+
+
 def jobs_for(t: str):
     jobs = []
     if t == "quick":
@@ -176,7 +197,9 @@ def jobs_for(t: str):
             if i % 8 == seed() % 8:
                 jobs.append((g, "diag", TIMEOUT_MS[t], None))
         jobs += deep5_jobs("diag", 3000)
+        jobs += ternary_jobs(t)
     else:
+        jobs += ternary_jobs(t)
         jobs += deep5_jobs("all", TIMEOUT_MS[t])
         for g in family(4):
             jobs.append((g, "all", TIMEOUT_MS[t], None))
@@ -196,7 +219,9 @@ def run() -> int:
     rep.bounds = {
         "graphs": "both tiers: 382 five-node (graph, X, Y) inputs whose reference ID trace reaches line 6 or a second line 7 below a line-7 frame (104 distinct trace signatures, vf/data/id_deep5.json); quick: every ADMG with <=3 nodes up to isomorphism under two labellings + curated 4/5-node graphs + 1/8 of the 4-node classes; thorough: every ADMG with <=4 nodes (1567 classes at n=4) under two labellings + curated list",
         "queries": "all disjoint non-empty (X, Y)",
-        "models": "all positive SCMs with binary observed variables and one binary latent per bidirected edge (every parameter a z3 Real)",
+        "models": "all positive SCMs with binary observed variables and one binary latent per bidirected edge (every parameter a z3 Real); "
+        "ternary layer: every graph with <= 3 nodes with three-valued observed and latent variables (all value assignments), the curated <= 4-node graphs with "
+        "three-valued observed variables (all-equal assignments), thorough: a quarter of the 4-node classes with mixed domain sizes 2/3 (all-equal assignments, 5 s per query)",
         "value_assignments": "all assignments of the free variables (curated 5-node graphs and the quick A(4) slice: the all-equal assignments)",
         "per_query_timeout_ms": TIMEOUT_MS[t],
         "PYTHONHASHSEED": hashseed(),
@@ -204,7 +229,7 @@ def run() -> int:
     rep.assumptions = [
         "semantics of expressions as fixed in DESIGN.md §2 (strict reading of Sum)",
         "z3 5.1 QF_NRA verdicts; 'unknown' is inconclusive and not counted as discharged",
-        "cardinality 2 for every observed and latent variable; larger domains are outside the claim",
+        "cardinality 2 or 3 for observed and latent variables as listed under bounds.models; larger domains are outside the claim",
     ]
     rep.rule = (
         "cases = (graph, X, Y) triples given to identify_outcomes; a case is non-trivial when an estimand is "
@@ -270,7 +295,7 @@ def replay(payload: dict) -> int:
         print("recorded:", payload.get("why"))
         return 1
     params = params_from_json(payload["params"])
-    rv = replay_values(g, X, Y, est, payload["env"], params)
+    rv = replay_values(g, X, Y, est, payload["env"], params, payload.get("card"), payload.get("lat_card", 2))
     if rv is None:
         print("estimand value equals the interventional probability on the recorded model: not reproduced")
         return 0
